@@ -5,6 +5,9 @@ HERE = os.path.dirname(os.path.abspath(__file__))
 TB = ("Lean 4.33.0 kernel (axioms: propext, Classical.choice, Quot.sound only; audited per theorem); "
       "hand-written Lean model tied to the code by an in-process differential correspondence run (go build -overlay harness) on every run; ")
 CHECKS = {
+ "C10": dict(text="Lean theorems exit_code_spec (total case analysis over any list of levels), exit_monotone, records_perm_junit (grouping by a de-duplicated sorted file list presents every violation exactly once, any sort function) and records_perm_linear; junit_old_witness (the repaired n^2 defect). Tie: every real reporter renders random reports and the output is parsed back (JSON, XML, SARIF, line formats) into records compared with the model and with the report; the real `regal lint` binary's exit status on generated workspaces for both fail levels and failing runs.",
+             note=TB + "encoders/escaping are trusted libraries sampled by parse-back; pretty level column needs NO_COLOR", ref="5/C10",
+             technique="Lean 4 proof (case analysis; partition-by-key permutation) + differential correspondence with parse-back"),
  "C20": dict(text="Lean theorems match_iff_component_prefix (for all clean paths of any depth a configured directory matches iff it is an ancestor-or-self by path components: a sibling sharing a name prefix is never captured), lookup_is_deepest_ancestor and lookup_default_when_outside (for every map iteration order), deepest_unique, and the key-precedence facts of AllRegoVersions. Tie: exhaustive lookups over small key/dir universes through the real RegoVersionFromVersionsMap (repeated to expose map-order dependence) and real temp trees (config roots, .manifest files, relative and absolute spelling) through AllRegoVersions + InputFromPaths.",
              note=TB + "OPA parser decides what parses under v0/v1; clean configured directories; LSP/fix path forms not covered", ref="5/C20",
              technique="Lean 4 proof (string-prefix = component-prefix lemma, fold invariant) + exhaustive differential correspondence"),
